@@ -21,7 +21,7 @@ func init() {
 		ID:    "C06",
 		Level: "exploration",
 		Rule: "one call per case on a linear.Seq or linear.QSeq (DNA = complementing, Protein = reverse only; length 0..60, offset -20..20, linear/circular): Truncate with start/end over [offset-3,end+3]^2 in both orders (1 in 6 with MinInt64/MaxInt64-side coordinates, 1 in 3 into a reused circular destination), Join at either end, " +
-			"Stitch and Compose with 0..6 features (overlapping, nested, abutting, unsorted, partly outside; wholly outside only for Stitch; every orientation mix), dst==src and dst!=src, Trim on a dyadic-valued QualityFeature (exact) and on real QSeq qualities (1e-9). " +
+			"Stitch and Compose with 0..6 features (overlapping, nested, abutting, unsorted, partly or wholly outside, 1 set in 6 with MinInt64/MaxInt64-side coordinates; every orientation mix), dst==src and dst!=src, Trim on a dyadic-valued QualityFeature (exact) and on real QSeq qualities (1e-9). " +
 			"Oracle: clean-room positional model; source unchanged (conformation included) and storage-independent from the result. Non-trivial = non-empty sequence and (>=2 features or a wrapping/out-of-range truncation or a join or a trim); distinct = op+parameters+letters",
 		Batches: func(t string) int {
 			if t == "thorough" {
@@ -398,13 +398,8 @@ func c06Case(r *obs.Run, i int) {
 						e = s + rng.Intn(p.E-s+1)
 					}
 				}
-				overlap := minInt(e, end) - maxInt(s, m.Off)
-				if op == "stitch" || overlap >= 0 || tries > 50 {
-					if op == "compose" && overlap < 0 {
-						s, e = m.Off, m.Off
-					}
-					break
-				}
+				// features wholly outside the sequence contribute nothing, to Stitch and to Compose alike
+				break
 			}
 			f := c06f{s, e, feat.Orientation(rng.Intn(3) - 1)}
 			if f.Ori == feat.Reverse {
@@ -413,6 +408,26 @@ func c06Case(r *obs.Run, i int) {
 			fl = append(fl, f)
 			ff := f
 			fs = append(fs, &ff)
+		}
+		if nf > 0 && rng.Intn(6) == 0 { // "from the beginning of time to 5", "from 2 onwards": extreme coordinates on the outer side
+			k := rng.Intn(nf)
+			switch rng.Intn(3) {
+			case 0:
+				fl[k].S = math.MinInt64 + rng.Intn(40)
+			case 1:
+				fl[k].E = math.MaxInt64 - rng.Intn(40)
+			default:
+				fl[k].S, fl[k].E = math.MinInt64+rng.Intn(40), math.MaxInt64-rng.Intn(40)
+			}
+			if op == "stitch" && rng.Intn(4) == 0 { // wholly outside, far away
+				if rng.Intn(2) == 0 {
+					fl[k].S, fl[k].E = math.MinInt64+rng.Intn(5), math.MinInt64+5+rng.Intn(40)
+				} else {
+					fl[k].S, fl[k].E = math.MaxInt64-45-rng.Intn(5), math.MaxInt64-rng.Intn(40)
+				}
+			}
+			*(fs[k].(*c06f)) = fl[k]
+			r.Count("feature_sets_with_extreme_coordinates", 1)
 		}
 		w["features"] = fl
 		dst := mkDst()
